@@ -2,8 +2,9 @@ package main
 
 // Part is one harness binary (with fixed extra arguments) contributing to a property.
 type Part struct {
-	Harness string
-	Args    []string
+	Harness    string
+	Args       []string
+	MemLimitMB int // address-space limit of each worker process (0 = none)
 }
 
 // Prop describes how a property is checked.
@@ -115,6 +116,13 @@ var properties = map[string]Prop{
 		QuickBudget: 120, ThoroughBudget: 600,
 		Rule:        "for every name in the wire registry (the harness fails if a registered name has no generator): the cross product of small field domains (strings {empty, 1 char, 300 bytes, non-ASCII}, integers {0, 1, -1, min, max}, times {epoch, now, max UnixNano}, maps {nil, empty, 2 entries}, nested messages {OnLaunch, user-registered type, user-codec type, nested PipeResult, Ping}, errors {nil, registered, re-worded, foreign, wrapped}, references {nil, local, remote, future}, cluster views / node states with extreme counters) is written and read back (a) through the registered writer/reader with the reader position checked, (b) nested through WriteMessage/ReadMessage, (c) inside an envelope for system flag x 4 senders x 3 receivers; plus every supported primitive / slice / array / struct shape with boundary values in value and pointer form; plus encode-encode-decode and decode-after-failure sequences; a case is one (type, value, route) triple, all distinct",
 		Assumptions: []string{"equality is judged on a canonical projection (nil == empty containers, time by UnixNano, errors by code+message, references by address+path)", "field domains are the small sets listed; other values are not covered"},
+	},
+	"C13": {
+		Parts:       []Part{{Harness: "c13", MemLimitMB: 6000}},
+		Level:       "exploration",
+		QuickBudget: 200, ThoroughBudget: 1800,
+		Rule:        "decode side: every byte string of length <= 2, and every string of length 3-5 (6 thorough) over the boundary alphabet {00,01,04,7f,80,fc,ff}, through every entry point (envelope decoder with and without a user codec, ReadMessage, ReadVersionVector, each of the 30 registered readers); for every distinct valid encoding of the C12 corpus (three routes: registered writer, WriteMessage, envelope) every truncation and at every offset the substitutions {00,01,7f,80,ff,b^01,b^80,b+1,b-1} (thorough: all 255) and every 4-byte window overwritten with {ffffffff, fffffffc, 80000000, 7fffffff, 00010000, 0000ffff}; Reader.Read of every truncation of 12 encoded shapes into pre-filled targets; each case guarded for panic and for allocation > 1 MiB + 4 KiB x input length (runtime/metrics), the worker runs under an address-space limit and a fatal crash is attributed to the case in flight; encode side: 19 unsupported / exotic Go values through Write and WriteFrom, 9 nil / non-pointer / unknown messages through the envelope encoder and WriteMessage with and without a codec; every case is distinct",
+		Assumptions: []string{"non-termination is only detected through the overall deadline", "corruptions are single-byte; multi-byte corruptions are covered only for inputs of length <= 2"},
 	},
 	"C05": {
 		Parts:       []Part{{Harness: "c05"}},
